@@ -14,6 +14,7 @@ META = {
                    'defines its name before compiling the initialiser, and a named function before its body. R09.7 whatever the lookup reads besides the scope structure (a cache of answers) is kept in step by every method that changes the structure.',
     'not_decided': ['agreement of the slot arithmetic (total_len()-1 vs abs_index+index) for every enter/leave/define history', 'run-time values of variables'],
 }
+META['explanation'] += " R09.1 also: a declaration made by a statement of a block (branch, loop body, bare block) is entered in the block's own scope, never in the scope around it."
 SYM = 'src/symbols.rs'
 
 
